@@ -55,7 +55,7 @@ Section Zp.
   Proof.
     unfold eqb. destruct (Z.eqb_spec (val x) (val y)) as [E|E]; constructor.
     - apply Fm_eq, E. - intros ->. apply E. reflexivity.
-  Qed.
+  Defined.
 
   Lemma Fm_dec (x y : Fm) : {x = y} + {x <> y}.
   Proof. destruct (eqb_spec x y); [left|right]; assumption. Qed.
@@ -167,7 +167,7 @@ Section Zp.
     {| F := Fm; FieldSec.zero := zero; FieldSec.one := one;
        FieldSec.add := add; FieldSec.mul := mul; FieldSec.sub := sub; FieldSec.opp := opp;
        FieldSec.div := div; FieldSec.inv := inv;
-       Ffield := Fm_field; F_id := Fm_integral; F_dec := Fm_dec |}.
+       Ffield := Fm_field; F_id := Fm_integral; feqb := eqb; feqb_spec := eqb_spec |}.
 
   (* Fermat in the field: x <> 0 -> x^(m-1) = 1 *)
   Lemma fermat_F x : x <> zero -> pow x (m - 1) = one.
